@@ -132,7 +132,8 @@ def colOf (V : Mat Rat) (j : Nat) : List Rat := V.map (fun r => r.getD j 0)
 def nCols (V : Mat Rat) : Nat := (V.headD []).length
 
 /-- proportional.py L820-824: the `Tie` of a per-party allocation hands one seat to each of the first `k`
-    tied districts in sorted order (positions ascending) -/
+    tied districts in the order of the input dict (`[d for d in votes if d in district][:k]` after the repair of
+    C07-O2, `sorted(district)[:k]` before): the harness inserts districts by ascending index = positions ascending -/
 def tieSpread (seats : List Nat) (batch : List Nat) (k : Nat) : List Nat :=
   let sel := batch.take k
   (List.range seats.length).map (fun i => seats.getD i 0 + (if sel.contains i then 1 else 0))
@@ -224,32 +225,58 @@ def lookupKey {α : Type} (l : List (Nat × α)) (k : Nat) : Option α :=
   | some e => some e.2
   | none => none
 
-/-- first inner loop of `_labeled` (proportional.py L719-728); `qt d p` is `quotients[d].get(party, 0)` -/
-def phase1 (q : Rat) (qt : Nat → Nat → Rat) (x : Mat Nat) (n : Nat) (labD : LabD) (labP : LabP) : LabP :=
+/-- `all_parties` of `_labeled` (proportional.py, after the repair of C07-O2): the parties in order of FIRST
+    APPEARANCE in the input, `dict.fromkeys(p for dqs in quotients.values() for p in dqs)` — the districts in the order
+    of the outer dict, inside each district the party keys in the order of that district's dict, a party listed where
+    it is met first.  `present i j` says that district `i`'s dict has a key for party `j`.  For a full matrix (every
+    district lists every party in the same order) this is `0, 1, …, n-1`.  For SPARSE dicts (a zero cell given as a
+    missing key) with keys inserted by ascending index, as the harness builds them, it is: the parties present in
+    district 0 by ascending index, then those met first in district 1 by ascending index, and so on; a party that
+    no district lists does not occur at all (it has no votes anywhere and can never be labelled). -/
+def firstAppearance (present : List (List Bool)) : List Nat :=
+  present.foldl (fun acc row =>
+    (List.range row.length).foldl (fun acc j => if row.getD j false && !acc.contains j then acc ++ [j] else acc) acc) []
+
+/-- the order covers every party that has votes somewhere (decidable hypothesis of the refusal theorems; the driver
+    evaluates it on every case) -/
+def ordCovers (ord : List Nat) (V : Mat Rat) : Bool :=
+  V.all (fun r => (List.range r.length).all (fun j => r.getD j 0 == 0 || ord.contains j))
+
+/-- a presence mask fits a vote matrix: same shape, and every cell with votes is present -/
+def maskOk (present : List (List Bool)) (V : Mat Rat) : Bool :=
+  present.length == V.length &&
+  (List.range V.length).all (fun i => (present.getD i []).length == (V.getD i []).length &&
+    (List.range (V.getD i []).length).all (fun j => (V.getD i []).getD j 0 == 0 || (present.getD i []).getD j false))
+
+/-- first inner loop of `_labeled` (`for d in labeled_districts: for party in all_parties`); `qt d p` is
+    `quotients[d].get(party, 0)`; `ord` is `all_parties` (see `firstAppearance`), entries outside the matrix are ignored -/
+def phase1 (q : Rat) (qt : Nat → Nat → Rat) (x : Mat Nat) (n : Nat) (ord : List Nat) (labD : LabD) (labP : LabP) : LabP :=
   labD.foldl (fun lp e =>
-    (List.range n).foldl (fun lp p =>
+    (ord.filter (fun p => decide (p < n))).foldl (fun lp p =>
       if !hasKey lp p && isDown q (qt e.1 p) (mget x e.1 p) then lp ++ [(p, e.1)] else lp) lp) labP
 
-/-- second inner loop of `_labeled` (proportional.py L729-738) -/
+/-- second inner loop of `_labeled` (`for party in labeled_parties: for d in quotients.keys()`): labelled parties in
+    labelling order, districts in the order of the input dict (= row index) -/
 def phase2 (q : Rat) (qt : Nat → Nat → Rat) (x : Mat Nat) (m : Nat) (labD : LabD) (labP : LabP) : LabD :=
   labP.foldl (fun ld e =>
     (List.range m).foldl (fun ld d =>
       if !hasKey ld d && isUp q (qt d e.1) (mget x d e.1) then ld ++ [(d, some e.1)] else ld) ld) labD
 
 /-- the `while prev_n_labelings < n_labelings` loop of `_labeled` (proportional.py L717-742) -/
-def labelLoop (q : Rat) (qt : Nat → Nat → Rat) (x : Mat Nat) (m n : Nat) (under : List Nat) :
+def labelLoop (q : Rat) (qt : Nat → Nat → Rat) (x : Mat Nat) (m n : Nat) (ord : List Nat) (under : List Nat) :
     Nat → LabD → LabP → LabD × LabP
   | 0, ld, lp => (ld, lp)
   | f+1, ld, lp =>
-    let lp' := phase1 q qt x n ld lp
+    let lp' := phase1 q qt x n ord ld lp
     let ld' := phase2 q qt x m ld lp'
     if under.any (hasKey ld') then (ld', lp')
     else if lp'.length + ld'.length = lp.length + ld.length then (ld', lp')
-    else labelLoop q qt x m n under f ld' lp'
+    else labelLoop q qt x m n ord under f ld' lp'
 
 /-- `_labeled` (proportional.py L696-743); at most `m + n` productive rounds exist -/
-def labeled (q : Rat) (qt : Nat → Nat → Rat) (x : Mat Nat) (m n : Nat) (under over : List Nat) : LabD × LabP :=
-  labelLoop q qt x m n under (m + n + 2) (over.map (fun d => (d, none))) []
+def labeled (q : Rat) (qt : Nat → Nat → Rat) (x : Mat Nat) (m n : Nat) (ord : List Nat) (under over : List Nat) :
+    LabD × LabP :=
+  labelLoop q qt x m n ord under (m + n + 2) (over.map (fun d => (d, none))) []
 
 /-- path construction of `_augment_result` (proportional.py L635-642): triples `(d, p, d')` meaning one seat
     more in cell `(d, p)` and one seat less in cell `(d', p)`.  Popping an empty (default) set is a `KeyError`;
@@ -334,8 +361,11 @@ deriving Repr
 
 /-- one iteration of the `while True` loop (proportional.py L571-618).
     `_districts_unsat` iterates a frozenset; for the integer district keys of the correspondence this is
-    ascending order, which is what `under` / `over` are here. -/
-def step (q : Rat) (V : Mat Rat) (tgt : List Nat) (s : State) : Except Err Step :=
+    ascending order, which is what `under` / `over` are here.  The district that receives the transferred seat is the
+    first under-represented labelled district IN THE ORDER OF THE INPUT DICT (`[d for d in votes if …][0]`, after the
+    repair of C07-O2; before: `sorted(…)[0]`) — the harness inserts districts by ascending index, so that is the
+    smallest row index.  `ord` is the party order `all_parties` (`firstAppearance`). -/
+def step (q : Rat) (ord : List Nat) (V : Mat Rat) (tgt : List Nat) (s : State) : Except Err Step :=
   let m := V.length
   let n := nCols V
   let under := (List.range m).filter (fun i => decide (rowSum s.x i < tgt.getD i 0))
@@ -343,7 +373,7 @@ def step (q : Rat) (V : Mat Rat) (tgt : List Nat) (s : State) : Except Err Step 
   if under.isEmpty && over.isEmpty then .ok .done
   else
     let qt := quot V s
-    let (labD, labP) := labeled q qt s.x m n under over
+    let (labD, labP) := labeled q qt s.x m n ord under over
     match under.filter (hasKey labD) with
     | start :: _ =>
       match augment s.x labD labP start over (m + n + 2) with
@@ -366,14 +396,14 @@ structure Outcome where
 deriving Repr
 
 /-- the `while True` loop with fuel; running out of fuel is reported, never defaulted -/
-def run (q : Rat) (V : Mat Rat) (tgt : List Nat) : Nat → State → Nat → List Rat → Except Err Outcome
+def run (q : Rat) (ord : List Nat) (V : Mat Rat) (tgt : List Nat) : Nat → State → Nat → List Rat → Except Err Outcome
   | 0, _, _, _ => .error (.other "OutOfFuel")
   | f+1, s, nt, ups =>
-    match step q V tgt s with
+    match step q ord V tgt s with
     | .error e => .error e
     | .ok .done => .ok { final := s, transfers := nt, updates := ups.reverse }
-    | .ok (.transfer s') => run q V tgt f s' (nt + 1) ups
-    | .ok (.update s' c) => run q V tgt f s' nt (c :: ups)
+    | .ok (.transfer s') => run q ord V tgt f s' (nt + 1) ups
+    | .ok (.update s' c) => run q ord V tgt f s' nt (c :: ups)
 
 /-- the state before the loop (proportional.py L559-569) -/
 def initState (div : Nat → Rat) (q : Rat) (V : Mat Rat) (total : Nat) : Except Err State :=
@@ -385,7 +415,8 @@ def initState (div : Nat → Rat) (q : Rat) (V : Mat Rat) (total : Nat) : Except
     `total` is the number of seats the parties are apportioned (`n_seats` or the sum of the per-district
     dictionary); `rows = none` means "districts apportioned by the same divisor rule", `some l` is an explicit
     per-district dictionary / the result of a custom apportioner. -/
-def evaluate (div : Nat → Rat) (q : Rat) (V : Mat Rat) (total : Nat) (rows : Option (List Nat)) (fuel : Nat) :
+def evaluate (div : Nat → Rat) (q : Rat) (ord : List Nat) (V : Mat Rat) (total : Nat) (rows : Option (List Nat))
+    (fuel : Nat) :
     Except Err Outcome :=
   match initState div q V total with
   | .error e => .error e
@@ -394,7 +425,7 @@ def evaluate (div : Nat → Rat) (q : Rat) (V : Mat Rat) (total : Nat) (rows : O
            | some l => Except.ok l
            | none => districtSeats div V total) with
     | .error e => .error e
-    | .ok tgt => run q V tgt fuel s0 0 []
+    | .ok tgt => run q ord V tgt fuel s0 0 []
 
 /-! ## decidable hypotheses of the partial-correctness theorems (evaluated by the driver on every case) -/
 
